@@ -80,6 +80,22 @@ def gen(ctx):
     if ctx.tier != "quick":
         d3 = trees(3, ctx.rng, cap=60)
         pool += ctx.rng.sample(d3, min(len(d3), 40000))
+    # complete: every two-parameter call whose arguments are atoms or one-argument calls on atoms (argument typing at depth 2)
+    a0 = atoms()
+    arg_pool = a0 + [{"t": "func", "name": f, "args": [x]} for f in ("length", "count", "value") for x in (SING[:2] + NONSING[:2] + LITS[:2])] + \
+        [{"t": "func", "name": "match", "args": [SING[0], {"t": "str", "v": "a."}]}, {"t": "infix", "l": SING[0], "op": "==", "r": {"t": "int", "v": 1}}]
+    for f in ("match", "search"):
+        for x in arg_pool:
+            for y in arg_pool:
+                call = {"t": "func", "name": f, "args": [x, y]}
+                pool.append(call)
+                pool.append({"t": "infix", "l": call, "op": "&&", "r": SING[0]})
+    for f in ("length", "count", "value"):
+        for x in arg_pool:
+            inner = {"t": "func", "name": f, "args": [x]}
+            pool.append({"t": "infix", "l": inner, "op": "==", "r": {"t": "int", "v": 1}})
+            pool.append({"t": "infix", "l": {"t": "int", "v": 1}, "op": "<", "r": inner})
+    ctx.exhaustive_spaces.append(f"all match/search calls over {len(arg_pool)} x {len(arg_pool)} arguments (atoms and nested calls), bare and under &&; all length/count/value calls over {len(arg_pool)} arguments as comparison operands")
     names = ["a", "b", "c", "k"]
     for _ in range(1500 if ctx.tier == "quick" else 30000):
         pool.append(qgen.gen_logical(ctx.rng, ctx.rng.randint(1, 3), names))   # well-typed by construction (checked by the Lean judgment too)
